@@ -17,6 +17,13 @@ Recognised shapes (anything else raises Untranslatable -> tie broken):
                                 | node, minl, maxl = L[0] / L[-1] ; return _without_context(node, ...)         ARetFirst/Last
                                 | [assignments]; raise ...                                                    ARaise
                        with L in {candidates, matches}                           -> select_rules
+  statelessness      parser.py: _unfold_continuations, dedent_block, parse_entity, _without_context, _arg_name,
+                     _node_matches_argspec, _parse_lambda, parse; inspect_utils.py: getimmediatesource,
+                     _fix_linecache_record -- the recovery path must carry no state between calls other than
+                     linecache: no `global` / `nonlocal`, no store / delete / augmented assignment through a
+                     subscript or attribute of a module-level name, no mutating method call (append, add, update,
+                     setdefault, pop, clear, ...) on a module-level name; getimmediatesource must still call
+                     inspect.findsource and inspect.getblock.  (checked, `recovery_stateless := true` emitted)
   _node_matches_argspec(node, func)    assignments; `if A != B: return False` ...; return True, each comparison
                                        naming one of arg_spec.args / .varargs / .varkw / .kwonlyargs
                                        (CompArgsPos when node.args.posonlyargs takes part in the args comparison)
@@ -137,10 +144,79 @@ def _rules(stmts):
     _fail(stmts[-1] if stmts else None, 'decision chain falls off the end of the function')
 
 
+MUTATORS = {'append', 'extend', 'insert', 'add', 'update', 'setdefault', 'pop', 'popitem', 'clear', 'remove',
+            'discard', '__setitem__', '__delitem__', 'sort', 'reverse'}
+RECOVERY = {'parser.py': ['_unfold_continuations', 'dedent_block', 'parse_entity', '_without_context', '_arg_name',
+                          '_node_matches_argspec', '_parse_lambda', 'parse'],
+            'inspect_utils.py': ['getimmediatesource', '_fix_linecache_record']}
+
+
+def _module_names(tree):
+    out = set()
+    for s in tree.body:
+        if isinstance(s, (ast.FunctionDef, ast.AsyncFunctionDef, ast.ClassDef)):
+            out.add(s.name)
+        elif isinstance(s, (ast.Import, ast.ImportFrom)):
+            for a in s.names:
+                out.add((a.asname or a.name).split('.')[0])
+        else:
+            for n in ast.walk(s):
+                if isinstance(n, ast.Name) and isinstance(n.ctx, ast.Store):
+                    out.add(n.id)
+    return out
+
+
+def _base_name(n):
+    while isinstance(n, (ast.Subscript, ast.Attribute)):
+        n = n.value
+    return n.id if isinstance(n, ast.Name) else None
+
+
+def check_stateless(fname, tree):
+    """fail closed if a recovery function writes module-level state"""
+    glob = _module_names(tree)
+    fns = {n.name: n for n in tree.body if isinstance(n, ast.FunctionDef)}
+    for name in RECOVERY[fname]:
+        if name not in fns:
+            raise Untranslatable('untranslatable: %s: no function %s' % (fname, name))
+        fn = fns[name]
+        local = set(a.arg for a in fn.args.posonlyargs + fn.args.args + fn.args.kwonlyargs)
+        if fn.args.vararg:
+            local.add(fn.args.vararg.arg)
+        if fn.args.kwarg:
+            local.add(fn.args.kwarg.arg)
+        for n in ast.walk(fn):
+            if isinstance(n, ast.Name) and isinstance(n.ctx, ast.Store):
+                local.add(n.id)
+
+        def shared(b):
+            return b is not None and b not in local and b in glob
+
+        for n in ast.walk(fn):
+            if isinstance(n, (ast.Global, ast.Nonlocal)):
+                raise Untranslatable('untranslatable: %s:%d: %s declares global/nonlocal state' % (fname, n.lineno, name))
+            if isinstance(n, (ast.Subscript, ast.Attribute)) and isinstance(n.ctx, (ast.Store, ast.Del)) \
+                    and shared(_base_name(n)):
+                raise Untranslatable('untranslatable: %s:%d: %s writes module-level state `%s` (state carried between '
+                                     'source recoveries)' % (fname, n.lineno, name, ast.unparse(n)))
+            if isinstance(n, ast.Call) and isinstance(n.func, ast.Attribute) and n.func.attr in MUTATORS \
+                    and shared(_base_name(n.func.value)):
+                raise Untranslatable('untranslatable: %s:%d: %s mutates module-level state `%s`' % (
+                    fname, n.lineno, name, ast.unparse(n.func)))
+    if fname == 'inspect_utils.py':
+        calls = {ast.unparse(c.func) for c in ast.walk(fns['getimmediatesource']) if isinstance(c, ast.Call)}
+        if not {'inspect.findsource', 'inspect.getblock'} <= calls:
+            raise Untranslatable('untranslatable: inspect_utils.py:%d: getimmediatesource no longer reads the source '
+                                 'through inspect.findsource / inspect.getblock' % fns['getimmediatesource'].lineno)
+
+
 def translate(repo):
     path = os.path.join(repo, 'malt', 'pyct', 'parser.py')
     with open(path) as f:
         tree = ast.parse(f.read())
+    check_stateless('parser.py', tree)
+    with open(os.path.join(repo, 'malt', 'pyct', 'inspect_utils.py')) as f:
+        check_stateless('inspect_utils.py', ast.parse(f.read()))
     fns = {n.name: n for n in tree.body if isinstance(n, ast.FunctionDef)}
     for need in ('_unfold_continuations', '_parse_lambda', '_node_matches_argspec'):
         if need not in fns:
@@ -220,7 +296,9 @@ def translate(repo):
            'From Coq Require Import List.', 'Import ListNotations.', 'Require Import MV.Lexer.LambdaSyntax.', '',
            'Definition span_ops : cmpop * cmpop := (%s, %s).' % tuple(ops),
            'Definition select_rules : list rule := [%s].' % '; '.join(rules),
-           'Definition match_components : list component := [%s].' % '; '.join(comps), '']
+           'Definition match_components : list component := [%s].' % '; '.join(comps),
+           '(* the recovery functions of parser.py / inspect_utils.py write no module-level state (translator check) *)',
+           'Definition recovery_stateless : bool := true.', '']
     return '\n'.join(out)
 
 
